@@ -1,5 +1,6 @@
 // Session harness: real UCIProtocol::main under vsim with simulated stdin/stdout, GUI and hooks.
 #include "session.hpp"
+#include <pthread.h>
 #include "uciprotocol.hpp"
 #include "computerPlayer.hpp"
 #include "transpositionTable.hpp"
@@ -240,6 +241,15 @@ struct Gui : vsim::Actor {
             H->sent.push_back(s);
             g_in->queue.push_back((int)H->sent.size() - 1);
             vsim::wake(&g_in->queue);
+        } else if (vf::startsWith(op, "freeze ")) {
+            // stall fault at this point of the script: "freeze engine|proto <steps>"
+            std::vector<std::string> t = vf::splitWs(op);
+            if (t.size() >= 3) vsim::freezeRole(t[1] == "proto" ? vsim::R_PROTO : vsim::R_ENGINE, atol(t[2].c_str()));
+        } else if (vf::startsWith(op, "tt_yield ")) {
+            // from here on every n-th transposition table slot access point is a scheduling point (0 = none)
+            long n = atol(op.c_str() + 9);
+            g_ttYield = n > 0;
+            g_ttYieldEvery = (int)std::max(1L, n);
         } else if (vf::startsWith(op, "x ")) {
             if (customOp) customOp(op.substr(2));
         } else if (op == "close") {
@@ -300,6 +310,9 @@ void genSimKnobs(vf::Rng& r, vf::Scenario& sc, bool faults) {
     sc.set("work_cost01_ns", r.logRange(15, 240));
     sc.set("work_cost2_ns", r.logRange(2, 24));
     sc.set("work_yield", 1);
+    // pre-emption inside transposition table slot accesses (between the key word and the data word): a thread can be
+    // parked while it holds a pointer into the table, e.g. across a resize by another thread
+    if (r.chance(0.35)) { static const int ev[] = {7, 20, 50, 200}; sc.set("tt_yield", ev[r.below(4)]); }
     if (faults) {
         if (r.chance(0.5)) sc.setD("spurious_p", r.chance(0.5) ? 0.002 : 0.02);
         if (r.chance(0.3)) { sc.setD("late_p", 0.2); sc.set("late_max_ns", r.logRange(1000, 50000000)); }
@@ -399,7 +412,15 @@ void beginUnit(const vf::Scenario& sc, History& h) {
 void setTTYield(bool on) { g_ttYield = on; }
 long bestmovesSoFar() { return g_out ? g_out->bestmoves : 0; }
 
-void runSession(const vf::Scenario& sc, History& h, vf::Result& res) {
+struct SessionCtx {
+    OutBuf out;
+    InBuf in;
+    Gui gui;
+    std::streambuf* oldOut = nullptr;
+    std::streambuf* oldIn = nullptr;
+};
+
+static void sessionBegin(const vf::Scenario& sc, History& h, vf::Result& res, SessionCtx& cx) {
     H = &h;
     g_res = &res;
     g_seq = 0;
@@ -428,29 +449,29 @@ void runSession(const vf::Scenario& sc, History& h, vf::Result& res) {
 
     vsim::Config cfg;
     configFromScenario(sc, cfg);
-    OutBuf out;
-    InBuf in;
+    OutBuf& out = cx.out;
+    InBuf& in = cx.in;
     g_out = &out;
     g_in = &in;
-    Gui gui;
+    Gui& gui = cx.gui;
     g_gui = &gui;
     gui.ops = sc.ops;
-    std::streambuf* oldOut = std::cout.rdbuf(&out);
-    std::streambuf* oldIn = std::cin.rdbuf(&in);
+    cx.oldOut = std::cout.rdbuf(&out);
+    cx.oldIn = std::cin.rdbuf(&in);
     std::cin.clear();
     vsim::onFatal = fatalHandler;
     vsim::sleepObserver = sleepObs;
     vsim::init(cfg);
     vsim::addActor(&gui);
+}
 
-    UCIProtocol::main(false);
-
+static void sessionEnd(const vf::Scenario& sc, History& h, vf::Result& res, SessionCtx& cx) {
     h.mainReturned = true;
     if (g_dump) dumpTranscript();
     h.threadsAllDone = vsim::allOthersDone();
-    h.partialLine = out.cur;
-    std::cout.rdbuf(oldOut);
-    std::cin.rdbuf(oldIn);
+    h.partialLine = cx.out.cur;
+    std::cout.rdbuf(cx.oldOut);
+    std::cin.rdbuf(cx.oldIn);
     addStatsToResult(res);
     res.counters["out_lines"] = (long long)h.out.size();
     res.counters["sent_lines"] = (long long)h.sent.size();
@@ -465,6 +486,36 @@ void runSession(const vf::Scenario& sc, History& h, vf::Result& res) {
 }
 
 } // namespace sess
+
+// The engine main thread (UCIProtocol::main) runs on a thread of its own whose entry function lives outside the harness
+// namespaces and has no harness type in its signature: ThreadSanitizer applies a "race:" suppression when ANY frame of
+// either stack matches (substring of the demangled name, parameter types included), so a harness frame at the bottom of
+// the engine thread's stack would silence every race that involves the engine thread.
+namespace sess {
+struct MainArgs { const vf::Scenario* sc; History* h; vf::Result* res; SessionCtx* cx; };
+}
+extern "C" void* texel_main_thread(void* p) {
+    sess::MainArgs* a = (sess::MainArgs*)p;
+    sess::sessionBegin(*a->sc, *a->h, *a->res, *a->cx); // vsim::init binds this thread as simulated thread 0
+    UCIProtocol::main(false);
+    sess::sessionEnd(*a->sc, *a->h, *a->res, *a->cx);
+    return nullptr;
+}
+
+extern "C" void harness_session_run(const void* scP, void* hP, void* resP) {
+    sess::MainArgs a;
+    a.sc = (const vf::Scenario*)scP;
+    a.h = (sess::History*)hP;
+    a.res = (vf::Result*)resP;
+    a.cx = new sess::SessionCtx(); // intentionally not destroyed: leaked engine threads of a violated run may still use the stream buffers
+    pthread_attr_t at;
+    pthread_attr_init(&at);
+    pthread_attr_setstacksize(&at, 64u << 20);
+    pthread_t pt;
+    // the simulator is not active in this thread: creation and join below are the real ones
+    if (pthread_create(&pt, &at, texel_main_thread, &a) != 0) { fprintf(stderr, "harness: cannot create the main thread\n"); _exit(92); }
+    pthread_join(pt, nullptr);
+}
 
 // ------------------------------------------------------------------------------------------
 // Hook definitions (strong; override the weak declarations in verifHooks.hpp)
